@@ -74,6 +74,9 @@ def parse_edit(line, unit, lineno):
     m = re.match(r"loop (\d+) for_to_while (ref|val):\s*(.*)$", t, re.S)
     if m:
         return {"op": "for_to_while", "n": int(m.group(1)), "mode": m.group(2), "spec": m.group(3)}
+    m = re.match(r"drop_nested_fn:\s*(\w+)$", t)
+    if m:
+        return {"op": "drop_nested_fn", "text": m.group(1)}
     m = re.match(r"guard_try:\s*(.*)$", t, re.S)
     if m:
         return {"op": "guard_try", "text": m.group(1)}
